@@ -179,7 +179,7 @@ func fmtEntry(e logEntry) string {
 	return fmt.Sprintf("p=%d:%s:%s d=%d:%s", len(pk), strings.Join(short, ","), hx(sha3sum(dig.Bytes()))[:16], len(dk), strings.Join(dk, ","))
 }
 
-func fmtEntries(es []logEntry) string {
+func wmFmtEntries(es []logEntry) string {
 	if len(es) == 0 {
 		return "none"
 	}
